@@ -41,6 +41,8 @@ def gen_item_C07(rng, idx, tier):
         case['crits'] = []
     # beyond 2**53 thresholds derived from values stay integers; user criteria carry float thresholds
     ops = [gen_prune_op(rng, case, allow_crits=case['kind'] != 'bigint') for _ in range(rng.choice([1, 1, 2, 2, 3, 4]))]
+    # fault path: some prunes are first attempted with a user criterion that raises (see session.run_session)
+    ops = [op + ('failfirst',) if rng.random() < 0.2 else op for op in ops]
     return {'case': case, 'ops': ops}
 
 
@@ -280,6 +282,32 @@ def fresh_copy(d, obs, case):
         return parse_dendrogram(links_newick(obs, case), d.data, np.array(d.index_map, copy=True), dict(d.params))
 
 
+S_CORE = ('_parent', '_children', '_indices', '_values', '_dendrogram', 'idx', '_vmin', '_vmax', '_smallest_index')
+D_CORE = ('data', 'index_map', 'params', 'trunk', '_structures_dict', 'n_dim', 'wcs')
+
+
+def _shallow(v):
+    return v.copy() if isinstance(v, (dict, list, set)) else v
+
+
+def snapshot_caches(d):
+    """everything the dendrogram and its structures hold besides their defining state (data, label map, parameters, links,
+    own pixels): derived state of any kind, whether this harness knows the attribute or not"""
+    snap = [(d, dict((k, _shallow(v)) for k, v in d.__dict__.items() if k not in D_CORE))]
+    for s in d._structures_dict.values():
+        snap.append((s, dict((k, _shallow(v)) for k, v in s.__dict__.items() if k not in S_CORE)))
+    return snap
+
+
+def restore_caches(snap):
+    for o, attrs in snap:
+        core = D_CORE if not hasattr(o, '_indices') else S_CORE
+        for k in [k for k in o.__dict__ if k not in core and k not in attrs]:
+            del o.__dict__[k]
+        for k, v in attrs.items():
+            o.__dict__[k] = _shallow(v)
+
+
 def plot_positions(d):
     p = d.plotter()
     return dict((int(s.idx), float(x)) for s, x in p._cached_positions.items())
@@ -460,8 +488,12 @@ def gen_item_C14(rng, idx, tier):
             ops.append(gen_prune_op(rng, case, allow_crits=False))
         elif r < 0.8:
             ops.append(('reload', rng.choice(['hdf5', 'fits'])))
-        elif r < 0.9:
+        elif r < 0.87:
             ops.append(('warm', ['newick']))
+        elif r < 0.91:
+            ops.append(('newickattr', rng.choice(['trunk', 'all'])))
+        elif r < 0.95:
+            ops.append(('plotsub', [rng.randrange(1000) for _ in range(rng.randint(1, 2))], rng.random() < 0.5))
         else:
             ops.append(('plotter',))
     if not any(o[0] == 'prune' for o in ops):
@@ -515,6 +547,25 @@ def eval_C14(item):
                     drv.ask('pcache q peak %d 1' % s_.idx)
                 if d.trunk:
                     res['corr'] += pcache_diff(d, case, drv, drv.ask('pcache q peak %d 1' % d.trunk[0].idx), lab, fill_state)[0]
+        elif op[0] == 'plotsub':
+            session.use_dendrogram(d, op)
+            sts_ = list(d)
+            if heap_ok and sts_:
+                for t in d.trunk:
+                    drv.ask('cache q desc %d' % t.idx)
+                for s_ in list(d):
+                    drv.ask('pcache q peak %d 1' % s_.idx)
+                for k_ in op[1]:
+                    drv.ask('cache q desc %d' % sts_[k_ % len(sts_)].idx)
+                res['corr'] += cache_diff(d, drv.ask('cache q desc %d' % sts_[op[1][0] % len(sts_)].idx), lab)[0]
+                res['corr'] += pcache_diff(d, case, drv, drv.ask('pcache q peak %d 1' % sts_[0].idx), lab, fill_state)[0]
+        elif op[0] == 'newickattr':
+            session.use_dendrogram(d, op)
+            which_ = list(d.trunk) if op[1] == 'trunk' else list(d)
+            if heap_ok and which_:
+                for s_ in which_:
+                    drv.ask('cache q newick %d' % s_.idx)
+                res['corr'] += cache_diff(d, drv.ask('cache q newick %d' % which_[0].idx), lab)[0]
         elif op[0] == 'prune':
             before_n = len(d)
             merged = []
@@ -565,15 +616,11 @@ def eval_C14(item):
             break
         # observing fills caches in the implementation: snapshot / restore them so that the mirrored
         # cache machine sees only the operations of the history
-        snap = [(s, s._level, s._ancestor, s._descendants, s._npix_total, s._peak, s._peak_subtree, getattr(s, '_newick', None))
-                for s in d._structures_dict.values()]
+        snap = snapshot_caches(d)
         iobs = impl.observe(d, case)
 
         def restore():
-            for s_, a1, a2, a3, a4, a5, a6, a7 in snap:
-                s_._level, s_._ancestor, s_._descendants, s_._npix_total, s_._peak, s_._peak_subtree = a1, a2, a3, a4, a5, a6
-                if hasattr(s_, '_newick'):
-                    s_._newick = a7
+            restore_caches(snap)
         restore()
         # model = a function of the current forest, i.e. the fresh copy by construction
         res['corr'] += [lab + x for x in session.diff_obs(iobs, mobs, C14_KEYS, ['trunk', 'iter', 'lmap', 'newick'])]
